@@ -56,6 +56,13 @@ type c13Node struct {
 	stopped  atomic.Bool
 	// highest round for which a Put on this node's base store has STARTED (set before delegating), +1
 	putStarted atomic.Uint64
+	dmu        sync.Mutex // guards daemon/bp replacement by restartNode
+}
+
+func (n *c13Node) curBP() *BeaconProcess {
+	n.dmu.Lock()
+	defer n.dmu.Unlock()
+	return n.bp
 }
 
 type c13Net struct {
@@ -89,29 +96,75 @@ type c13Net struct {
 	pc    net.Client
 
 	onStopHang func(n *c13Node, dump string)
+	restarting atomic.Pointer[c13Node]
+
+	// stream fault injector: consulted for every outgoing client stream (SyncChain, ...) of every node
+	onStream func(from *c13Node, method, target string) *c13StreamFault
+}
+
+// c13StreamFault scripts one outgoing stream: refuse it, cut it after k received messages, or let it go silent
+// after k received messages (until its context ends).
+type c13StreamFault struct {
+	FailOpen   bool
+	CloseAfter int // -1: never
+	StallAfter int // -1: never
+}
+
+type c13FaultyStream struct {
+	grpc.ClientStream
+	f    *c13StreamFault
+	recv int
+}
+
+func (fs *c13FaultyStream) RecvMsg(m any) error {
+	if fs.f.CloseAfter >= 0 && fs.recv >= fs.f.CloseAfter {
+		return errors.New("vf: injected stream failure")
+	}
+	if fs.f.StallAfter >= 0 && fs.recv >= fs.f.StallAfter {
+		<-fs.Context().Done()
+		return fs.Context().Err()
+	}
+	err := fs.ClientStream.RecvMsg(m)
+	if err == nil {
+		fs.recv++
+	}
+	return err
 }
 
 // c13StoreTap decorates the base chain.Store of a BeaconProcess (vfhook wrap "core.dbstore").
 type c13StoreTap struct {
 	chain.Store
 	nt    *c13Net
-	once  sync.Once
+	omu   sync.Mutex
 	owner *c13Node
 }
 
+// node resolves which daemon this store belongs to (the wrap hook only gets the beacon id). A miss is not
+// cached: a daemon re-created on the same folder (restartNode) registers its beacon process a moment later.
 func (s *c13StoreTap) node() *c13Node {
-	s.once.Do(func() {
-		s.nt.mu.Lock()
-		defer s.nt.mu.Unlock()
-		for _, n := range s.nt.nodes {
-			if n.bp != nil {
-				if tp, ok := n.bp.dbStore.(*c13StoreTap); ok && tp == s {
-					s.owner = n
-				}
+	s.omu.Lock()
+	defer s.omu.Unlock()
+	if s.owner != nil {
+		return s.owner
+	}
+	s.nt.mu.Lock()
+	nodes := append([]*c13Node(nil), s.nt.nodes...)
+	s.nt.mu.Unlock()
+	for _, n := range nodes {
+		if bp := n.curBP(); bp != nil {
+			if tp, ok := bp.dbStore.(*c13StoreTap); ok && tp == s {
+				s.owner = n
+				return n
 			}
 		}
-	})
-	return s.owner
+	}
+	// a store created while a daemon is being re-created on its folder belongs to that node (restartNode runs
+	// one node at a time and knows the new beacon process only after LoadBeaconsFromDisk returned)
+	if n := s.nt.restarting.Load(); n != nil {
+		s.owner = n
+		return n
+	}
+	return nil
 }
 
 func (s *c13StoreTap) Put(ctx context.Context, b *common.Beacon) error {
@@ -217,6 +270,85 @@ func c13FilterDump(dump string, subs ...string) string {
 	return out
 }
 
+// nodeOpts is the daemon configuration of node n (also used when the daemon is re-created on its folder).
+func (nt *c13Net) nodeOpts(n *c13Node) []ConfigOption {
+	return []ConfigOption{
+		WithConfigFolder(n.folder),
+		WithDBStorageEngine(nt.engine),
+		WithDkgKickoffGracePeriod(1 * time.Second),
+		WithDkgPhaseTimeout(5 * time.Second),
+		WithPrivateListenAddress(n.addr),
+		WithControlPort(n.ctrlPort),
+		WithNamedLogger(fmt.Sprintf("[node %d]", n.idx)),
+		WithMemDBSize(2000),
+		WithCallOption(grpc.WaitForReady(false)),
+		func(c *Config) { c.clock = n.clock },
+		func(c *Config) {
+			c.grpcOpts = append(c.grpcOpts, grpc.WithChainUnaryInterceptor(
+				func(ctx context.Context, method string, req, reply any, cc *grpc.ClientConn, invoker grpc.UnaryInvoker, co ...grpc.CallOption) error {
+					start := time.Now()
+					err := nt.faultInterceptor(ctx, method, req, reply, cc, invoker, co...)
+					if f := nt.onCall; f != nil {
+						f(n, method, cc.Target(), req, start, err)
+					}
+					return err
+				}),
+				grpc.WithChainStreamInterceptor(
+					func(ctx context.Context, desc *grpc.StreamDesc, cc *grpc.ClientConn, method string, streamer grpc.Streamer, co ...grpc.CallOption) (grpc.ClientStream, error) {
+						var fault *c13StreamFault
+						if f := nt.onStream; f != nil {
+							fault = f(n, method, cc.Target())
+						}
+						if fault != nil && fault.FailOpen {
+							return nil, errors.New("vf: injected refusal of the stream")
+						}
+						st, err := streamer(ctx, desc, cc, method, co...)
+						if err != nil || fault == nil {
+							return st, err
+						}
+						return &c13FaultyStream{ClientStream: st, f: fault}, nil
+					}))
+		},
+	}
+}
+
+// restartNode re-creates the daemon of a stopped node on its folder, address and ports, the way `drand start`
+// does (NewDrandDaemon + LoadBeaconsFromDisk), with the node's fake clock.
+func (nt *c13Net) restartNode(n *c13Node) error {
+	var daemon *DrandDaemon
+	var err error
+	for attempt := 0; attempt < 10; attempt++ {
+		daemon, err = NewDrandDaemon(context.Background(), NewConfig(nt.log, nt.nodeOpts(n)...))
+		if err == nil {
+			break
+		}
+		if !strings.Contains(err.Error(), "address already in use") {
+			return fmt.Errorf("NewDrandDaemon: %w", err)
+		}
+		time.Sleep(500 * time.Millisecond)
+	}
+	if err != nil {
+		return fmt.Errorf("NewDrandDaemon: %w", err)
+	}
+	n.dmu.Lock()
+	n.daemon, n.bp = daemon, nil
+	n.dmu.Unlock()
+	nt.restarting.Store(n)
+	err = daemon.LoadBeaconsFromDisk(context.Background(), "", false, "")
+	nt.restarting.Store(nil)
+	if err != nil {
+		return fmt.Errorf("LoadBeaconsFromDisk: %w", err)
+	}
+	daemon.state.RLock()
+	bp := daemon.beaconProcesses[nt.beaconID]
+	daemon.state.RUnlock()
+	n.dmu.Lock()
+	n.bp = bp
+	n.dmu.Unlock()
+	n.stopped.Store(false)
+	return nil
+}
+
 // addNodes creates k more daemons with real file key stores under nt.dir/node-<i>.
 func (nt *c13Net) addNodes(k int) ([]*c13Node, error) {
 	var out []*c13Node
@@ -234,30 +366,8 @@ func (nt *c13Net) addNodes(k int) ([]*c13Node, error) {
 			return nil, err
 		}
 		clk := clock.NewFakeClockAt(time.Now())
-		var self *c13Node
-		opts := []ConfigOption{
-			WithConfigFolder(folder),
-			WithDBStorageEngine(nt.engine),
-			WithDkgKickoffGracePeriod(1 * time.Second),
-			WithDkgPhaseTimeout(5 * time.Second),
-			WithPrivateListenAddress(addr),
-			WithControlPort(test.FreePort()),
-			WithNamedLogger(fmt.Sprintf("[node %d]", idx)),
-			WithMemDBSize(2000),
-			WithCallOption(grpc.WaitForReady(false)),
-			func(c *Config) { c.clock = clk },
-			func(c *Config) {
-				c.grpcOpts = append(c.grpcOpts, grpc.WithChainUnaryInterceptor(
-					func(ctx context.Context, method string, req, reply any, cc *grpc.ClientConn, invoker grpc.UnaryInvoker, co ...grpc.CallOption) error {
-						start := time.Now()
-						err := nt.faultInterceptor(ctx, method, req, reply, cc, invoker, co...)
-						if f := nt.onCall; f != nil && self != nil {
-							f(self, method, cc.Target(), req, start, err)
-						}
-						return err
-					}))
-			},
-		}
+		n := &c13Node{idx: idx, folder: folder, addr: addr, ctrlPort: test.FreePort(), priv: priv, clock: clk}
+		opts := nt.nodeOpts(n)
 		conf := NewConfig(nt.log, opts...)
 		store := key.NewFileStore(conf.ConfigFolderMB(), nt.beaconID)
 		if err := store.SaveKeyPair(priv); err != nil {
@@ -272,11 +382,11 @@ func (nt *c13Net) addNodes(k int) ([]*c13Node, error) {
 		if err != nil {
 			return nil, fmt.Errorf("InstantiateBeaconProcess: %w", err)
 		}
-		dkgc, err := net.NewDKGControlClient(nt.log, conf.controlPort)
+		dkgc, err := net.NewDKGControlClient(nt.log, n.ctrlPort)
 		if err != nil {
 			return nil, err
 		}
-		ctrl, err := net.NewControlClient(nt.log, conf.controlPort)
+		ctrl, err := net.NewControlClient(nt.log, n.ctrlPort)
 		if err != nil {
 			return nil, err
 		}
@@ -284,10 +394,8 @@ func (nt *c13Net) addNodes(k int) ([]*c13Node, error) {
 		if err != nil {
 			return nil, err
 		}
-		n := &c13Node{idx: idx, folder: folder, addr: addr, ctrlPort: conf.controlPort, priv: priv, daemon: daemon, bp: bp,
-			clock: clk, dkgc: dkgc, ctrl: ctrl,
-			part: &pdkg.Participant{Address: priv.Public.Addr, Key: pk, Signature: priv.Public.Signature}}
-		self = n
+		n.daemon, n.bp, n.dkgc, n.ctrl = daemon, bp, dkgc, ctrl
+		n.part = &pdkg.Participant{Address: priv.Public.Addr, Key: pk, Signature: priv.Public.Signature}
 		nt.mu.Lock()
 		nt.nodes = append(nt.nodes, n)
 		nt.mu.Unlock()
